@@ -45,7 +45,7 @@ class PolicyEngine(Engine):
         self.access_updates = pol in ACCESS_UPDATES_COST
 
     def n_cases(self, tier):
-        return 1500 if tier == "quick" else 30000
+        return 1000 if tier == "quick" else 15000
 
     def hdr(self, cap=None):
         if self.caps is None:
@@ -142,7 +142,8 @@ class PolicyEngine(Engine):
         arc_pressure = False     # a fresh key was admitted while the tracked keys were worth >= capacity
         arc_ghost_hit = False    # a key nominated by an earlier evict was admitted again
         evicted = set()
-        slack = 0                # TinyLfu: cost added to (possibly window) keys by on_access since the last admit
+        slack = 0                # TinyLfu: cost added to (possibly window) keys by on_access since the last clear
+                                 # (an on_admit of a key already in main does not trim the window)
         wt = tinylfu_window_target(cap)
         if len(outs) < len(ops) and not (outs and outs[-1] == "PANIC"):
             hits.append(("bad-output", "%d outputs for %d calls" % (len(outs), len(ops))))
@@ -165,7 +166,6 @@ class PolicyEngine(Engine):
                     arc_pressure = True
                 if k in evicted:
                     arc_ghost_hit = True
-                slack = 0
                 if o == "admit":
                     tracked[k] = c
                     tracked_old.setdefault(k, c)
